@@ -113,7 +113,7 @@ impl ItemId {
 UNIT = {
     "name": "trace_impls",
     "env": [os.path.join(ENV, "trace_impls_env.rs")],
-    "declared_trusted": {r"external_body": 47},
+    "declared_trusted": {r"external_body": 48},
     "items": [
         {"kind": "enum", "file": TV, "name": "EdgeKind", "prefix": "#[derive(Copy, Clone, PartialEq, Eq, Structural)]"},
         {"kind": "enum", "file": FN, "name": "Abi", "prefix": "#[derive(Copy, Clone, PartialEq, Eq, Structural)]"},
@@ -210,7 +210,9 @@ UNIT = {
              ("signature.into()", "signature.item()", 1, "R12"),
              ("for ctor in self.constructors()", "let mut it4 = SliceCursor::new(self.constructors()); while it4.has_next()", 1, "R13"),
              ("ctor.into()", "ctor.item()", 1, "R12"),
-             ("for base in self.base_members()", "let mut it5 = SliceCursor::new(self.base_members()); while it5.has_next()", 1, "R13"),
+             # R13; a `.iter().filter(|b| P)` on the iterated slice is swallowed here and becomes `if !P { continue; }` at the start of
+             # the loop body (definition of Iterator::filter; P is the source text, see loop 5 below)
+             (r"re:for base in self\.base_members\(\)(?:\s*\.iter\(\)\s*\.filter\(\|\w+\|[^{]*?\))?(?=\s*\{)", "let mut it5 = SliceCursor::new(self.base_members()); while it5.has_next()", 1, "R13"),
          ],
          "ghost_start": "let ghost log0 = tracer.log(); let ghost tps = item.s_all_tparams(context); let ghost f_t = |t: TypeId| tid(t); let ghost f_v = |t: VarId| vid(t); let ghost f_m = |m: Method| msig(m); let ghost f_f = |t: FunctionId| fid(t); let ghost f_b = |b: Base| bty(b); "
                         "let ghost e0 = edges_map(tps, f_t, EdgeKind::TemplateParameterDefinition); let ghost e1 = edges_map(self.s_inner_types(), f_t, EdgeKind::InnerType); let ghost e2 = edges_map(self.s_inner_vars(), f_v, EdgeKind::InnerVar); "
@@ -234,7 +236,8 @@ UNIT = {
              4: {"body_start": "let ctor = it4.next_item();", "decreases": "it4.all().len() - it4.pos()",
                  "invariant": ["it4.all() == self.s_constructors() && 0 <= it4.pos() <= it4.all().len()", "f_f == (|t: FunctionId| fid(t))", "tracer.log() == log0 + e0 + e1 + e2 + e3 + e4 + edges_map(self.s_constructors().subrange(0, it4.pos()), f_f, EdgeKind::Constructor)"],
                  "proof": "lemma_loop_step(log0 + e0 + e1 + e2 + e3 + e4, self.s_constructors(), it4.pos() - 1, f_f, EdgeKind::Constructor);"},
-             5: {"body_start": "let base = it5.next_item();", "decreases": "it5.all().len() - it5.pos()",
+             5: {"header_re": r"(?s)for base in self\.base_members\(\)(?:\s*\.iter\(\)\s*\.filter\(\|(\w+)\|\s*(.*?)\))?\s*$",
+                 "body_start": (lambda m: "let base = it5.next_item();" + ((" let %s = &base; if !(%s) { continue; }" % (m.group(1), m.group(2))) if m.group(1) else "")), "decreases": "it5.all().len() - it5.pos()",
                  "invariant": ["it5.all() == self.s_bases() && 0 <= it5.pos() <= it5.all().len()", "f_b == (|b: Base| bty(b))", "!item.s_opaque(context)", "tracer.log() == log0 + e0 + e1 + e2 + e3 + e4 + e5 + edges_map(self.s_bases().subrange(0, it5.pos()), f_b, EdgeKind::BaseMember)"],
                  "proof": "lemma_loop_step(log0 + e0 + e1 + e2 + e3 + e4 + e5, self.s_bases(), it5.pos() - 1, f_b, EdgeKind::BaseMember);"},
          },
